@@ -13,6 +13,7 @@ import copy
 from .. import specgen as sg
 from .. import monitors as M
 from .. import world
+from .. import msgs
 from ..core import Result
 from ..ref import dense as D
 from ..ref.discrete import eval_discrete, RefError, pred_value, pred_sat
@@ -104,7 +105,7 @@ def gen(rng, tier):
         defs, top = sg.modularize(rng, ast, max_subs=2, prefer_stateful=False)
         modular = {'defs': defs, 'top': top, 'via': rng.choice(['add_sub_spec', 'text'])}
     # message-typed variables: declared with an imported class type and read through a field (a.value)
-    structs = [v for v in vars_ if rng.random() < 0.5] if rng.random() < 0.15 else []
+    structs = dict((v, rng.choice(msgs.PATHS)) for v in vars_ if rng.random() < 0.5) if rng.random() < 0.15 else {}
     sc = {'kind': kind, 'mode': mode, 'vars': vars_, 'ast': ast, 'io': io, 'sem': sem, 'pastify': bool(pastify), 'modular': modular,
           'structs': structs}
     if dense:
@@ -163,7 +164,9 @@ def eqn(a, b):
 
 def desc_of(sc, with_io=True, sem=None):
     dense = sc['kind'] == 'ct'
-    st = set(sc.get('structs') or [])
+    st = sc.get('structs') or {}
+    if not isinstance(st, dict):
+        st = dict((v, 'value') for v in st)
     sast = common.structify(sc['ast'], st)
     text = common.dense_text(sast) if dense else 'out = ' + sg.to_text(sast) + ';'
     d = {'cls': sc['kind'], 'semantics': sem or sc['sem'], 'vars': [[v, 'Msg' if v in st else 'float'] for v in sc['vars']], 'spec': text,
@@ -331,7 +334,7 @@ def shrinks(sc):
     dense = sc['kind'] == 'ct'
     if sc.get('structs'):
         c = copy.deepcopy(sc)
-        c['structs'] = []
+        c['structs'] = {}
         yield c
     if sc.get('modular'):
         c = copy.deepcopy(sc)
